@@ -304,8 +304,7 @@ pub(crate) mod b {
                         && text_of(&node, "xmlns").as_deref() == Some("http://www.w3.org/2000/svg")
                         && text_of(&node, "class").as_deref() == Some("svgbob")
                         && num(&node, "width") == Some(w)
-                        && num(&node, "height") == Some(h)
-                        && node.attributes().map(|a| a.len()) == Some(4);
+                        && num(&node, "height") == Some(h);
                     let ch = node.children();
                     let mut want: Vec<&str> = vec![];
                     if st.include_styles {
